@@ -338,7 +338,7 @@ Fixpoint serve_batch (now : Z) (s : server) (b : blocking) (c : Z) (fs : list (f
       end
   end.
 
-(** ---- wake_client (after the repairs 8db2804, e1d4020, bdd75e8, 8ab686d) ---- *)
+(** ---- wake_client (after the repairs 8db2804, e1d4020, bdd75e8, 8ab686d, 0715a3b) ---- *)
 (** the keys of the client, in order, as a fresh blocking call would try them (errors count as
     "nothing": rpop/lpop(..).unwrap_or(None)) *)
 Fixpoint recheck (left : bool) (d : db) (keys : list bytes) : option (bytes * bytes) * db :=
@@ -359,8 +359,10 @@ Definition wake_client (now : Z) (s : server) (b : blocking) (u : wakeup) : serv
       | Some _ =>
           (set_db s (u_db u) d', unblock (emit b (u_conn u) (FArray [FBulk (u_key u); FBulk v])) (u_conn u))
       | None =>
-          (* nobody to take it: put it back at the end it came from *)
-          (set_db s (u_db u) (snd (on_key d' (u_key u) (e_push (u_left u) [v]))), b)
+          (* nobody to take it: put it back at the end it came from, and tell the next client
+             waiting on the key (0715a3b) *)
+          (set_db s (u_db u) (snd (on_key d' (u_key u) (e_push (u_left u) [v]))),
+           notify_key_ready b (u_db u) (u_key u))
       end
   | (_, d') =>        (* nothing there - or a key of another type: lpop(..).unwrap_or(None) *)
       match zlookup (u_conn u) (b_blk b) with
